@@ -132,6 +132,17 @@ def cases(ctx):
                 ent("leaf", "imp", "P-256", "RSAwithSHA256" if isrsa else "ECDSAwithSHA256", aki=True)]
         out.append(mk(len(out) + 1, ents, {"imp": "imp.yaml", "leaf": "l/leaf.yaml"}, {"imp": "CN=What the config calls it, O=Config Org", "leaf": "CN=Leaf under renamed"},
                       "imported/config-names-it-differently", extra_files=[("imp.pem", {"make": {"kind": "cert+key", "key": ik, "cn": "Imported", "strType": ""}})]))
+    # subject values given in binary (`#` + hex of a DER value, any string type or none): the certificate that is WRITTEN carries that value -
+    # it is what was signed, what verifies, and what the children name byte for byte (roots, intermediates and leaves)
+    for tagbyte, name in [("0c", "utf8"), ("13", "printable"), ("16", "ia5"), ("1e", "bmp"), ("04", "octets"), ("14", "t61")]:
+        val = "00420069006e" if name == "bmp" else "42696e617279"
+        hexv = tagbyte + "%02x" % (len(val) // 2) + val
+        for ik in (["P-256"] if ctx.quick and name not in ("utf8", "octets") else ["P-256", "RSA-1024", "brainpoolP256r1"]):
+            isig = "RSAwithSHA256" if is_rsa(ik) else "ECDSAwithSHA256"
+            ents = [ent("ca", None, ik, isig), ent("mid", "ca", "P-256", isig), ent("leaf", "mid", None, "ECDSAwithSHA256"), ent("plain", "ca", None, isig)]
+            out.append(mk(len(out) + 1, ents, {"ca": "ca.yaml", "mid": "m/mid.yaml", "leaf": "m/leaf.json", "plain": "plain.yml"},
+                          {"ca": "CN=#%s, O=Binary %s, C=DE" % (hexv, name), "mid": "O=Mid, OU=#%s, CN=Mid %s" % (hexv, name),
+                           "leaf": "CN=Leaf, 1.2.3.4=#%s" % hexv, "plain": "CN=Plain under binary"}, "binary-dn/" + name, profile=(name in ("utf8", "ia5"))))
     return out
 
 
